@@ -83,6 +83,11 @@ WHY_MISSED = {
     "C11_17": "Cox tie test on mis-aligned masks: a value-dependent decision on runtime data",
     "C16_18": "(n, 1)-shaped y broadcasting in a vectorised alpha_max: the lifter models y as a vector, for which the rewrite is decided equal",
     "C17_16": "integer overflow of `y @ y` for narrow integer targets: element types of user data are not modelled",
+    "C03_22": "line-search budget constant halved: how many halvings an overshoot needs is numeric (backtracking exhaustion is reported as a note, §4 C03)",
+    "C07_22": "prox_SCAD rewritten as a closed form that is the global minimiser for step < gamma - 1 only: every value it returns is still a stationary point; global optimality among stationary points is not claimed (§4 C07)",
+    "C07_23": "prox_log_sum regime selector `alpha <= eps` (as C07_19): which stationary candidate is the global minimiser is not claimed (§4 C07)",
+    "C09_22": "default iteration budget of the power method lowered to the documented 20 (as C09_21): accuracy after a generic start is not decided (§4 C09)",
+    "C19_22": "group Hessian bound of the prox-Newton model taken as the largest diagonal entry (as C19_19): a numeric bound on collinear columns, not visible structurally",
     "C20_18": "score array sized by the Lipschitz argument: only manifests through the recorded GroupBCD x LogisticGroup finding (per-feature constants, §8.2)",
 }
 
